@@ -6,86 +6,35 @@ set_option linter.unusedSimpArgs false
 set_option linter.unusedVariables false
 namespace ASV
 
-/-- closed form of `extend_location` for the forward origin-spanning span `[x, L) + [0, y)` -/
+/-- closed form of `extend_location` (after the repair D59) for the forward origin-spanning span `[x, L) + [0, y)`:
+    the whole record as soon as the two extended ends pass each other, else both ends moved by `d` -/
 def extAreaRing (x y d L : Int) : Loc :=
-  if x - d < 0 ∧ x - d + L ≤ y + d then .simple ⟨0, L, .fwd⟩
-  else if x - d < 0 then .compound [⟨L + (x - d), L, .fwd⟩, ⟨0, L, .fwd⟩, ⟨0, y + d, .fwd⟩]
-  else if y + d > L then
-    if x - d < y + d - L then .simple ⟨0, L, .fwd⟩
-    else .compound [⟨x - d, L, .fwd⟩, ⟨0, L, .fwd⟩, ⟨0, y + d - L, .fwd⟩]
-  else if x - d < y + d then .simple ⟨0, L, .fwd⟩
+  if x - y < 2 * d then .simple ⟨0, L, .fwd⟩
   else .compound [⟨x - d, L, .fwd⟩, ⟨0, y + d, .fwd⟩]
+
+theorem bridges_areaTwo_fwd (x y L : Int) (hy0 : 0 < y) (hyx : y ≤ x) : bridgesOrigin (areaTwo x y L .fwd) = true := by
+  simp [bridgesOrigin, areaTwo, Loc.strand, Loc.parts, orderInvalid]
+  omega
 
 theorem extend_area_ring_eq (x y d L : Int) (hL : 0 < L) (hy0 : 0 < y) (hyx : y ≤ x) (hxL : x < L) (hd : 0 ≤ d) :
     extendLocation (areaTwo x y L .fwd) d L true = .ok (extAreaRing x y d L) := by
   unfold extAreaRing
   have hno : partsOverlap (⟨x, L, .fwd⟩ : Part) (⟨0, y, .fwd⟩ : Part) = false := by
     simp only [partsOverlap, Part.mem, Bool.or_eq_false_iff, Bool.and_eq_false_iff, decide_eq_false_iff_not]; omega
-  by_cases hW : x - d < 0 ∧ x - d + L ≤ y + d
-  · rw [if_pos hW]
-    have hm := Int.emod_lt_of_pos (y + d) hL
-    have hm0 := Int.emod_nonneg (y + d) (show L ≠ 0 by omega)
-    have o1 : partsOverlap (⟨0, L, .fwd⟩ : Part) (⟨x - d + L, L, .fwd⟩ : Part) = true := by
-      simp only [partsOverlap, Part.mem, Bool.or_eq_true, Bool.and_eq_true, decide_eq_true_eq]; omega
-    have o2 : partsOverlap (⟨0, L, .fwd⟩ : Part) (⟨min 0 (x - d + L), L, .fwd⟩ : Part) = true := by
-      simp only [partsOverlap, Part.mem, Bool.or_eq_true, Bool.and_eq_true, decide_eq_true_eq]; omega
-    have o3 : partsOverlap (⟨min 0 (x - d + L), L, .fwd⟩ : Part) (⟨0, (y + d) % L, .fwd⟩ : Part) = true := by
-      simp only [partsOverlap, Part.mem, Bool.or_eq_true, Bool.and_eq_true, decide_eq_true_eq]; omega
-    have e6 : max L ((y + d) % L) = L := by omega
-    by_cases hne : y + d > L
-    · simp [extendLocation, areaTwo, Loc.strand, Loc.parts, setHead, setLast, pure, Except.pure, bind, Except.bind,
-        hW.1, hW.2, popWhileUpper, popWhileLower, o1, o2, o3, e6, hne]
-    · have e7 : min 0 (x - d + L) = 0 := by omega
-      have o7 : partsOverlap (⟨0, L, .fwd⟩ : Part) (⟨0, L, .fwd⟩ : Part) = true := by
-        simp only [partsOverlap, Part.mem, Bool.or_eq_true, Bool.and_eq_true, decide_eq_true_eq]; omega
-      simp [extendLocation, areaTwo, Loc.strand, Loc.parts, setHead, setLast, pure, Except.pure, bind, Except.bind,
-        hW.1, hW.2, popWhileUpper, popWhileLower, o1, o2, e7, hne, o7]
-  · rw [if_neg hW]
-    by_cases hA : x - d < 0
-    · rw [if_pos hA]
-      have hW' : ¬ (x - d + L ≤ y + d) := fun h => hW ⟨hA, h⟩
-      have hB : ¬ (y + d > L) := by omega
-      have e1 : min (L + (x - d)) L = L + (x - d) := by omega
-      have e2 : min (y + d) L = y + d := by omega
-      have o4 : partsOverlap (⟨L + (x - d), L, .fwd⟩ : Part) (⟨0, y + d, .fwd⟩ : Part) = false := by
-        simp only [partsOverlap, Part.mem, Bool.or_eq_false_iff, Bool.and_eq_false_iff, decide_eq_false_iff_not]; omega
-      simp [extendLocation, areaTwo, Loc.strand, Loc.parts, setHead, setLast, pure, Except.pure, bind, Except.bind,
-        hA, hW', hB, mergeEnds, hno, e1, e2, o4]
-    · rw [if_neg hA]
-      have e1 : max 0 (x - d) = x - d := by omega
-      by_cases hB : y + d > L
-      · rw [if_pos hB]
-        have e2 : min (y + d - L) L = y + d - L := by omega
-        by_cases hM : x - d < y + d - L
-        · rw [if_pos hM]
-          have o5 : partsOverlap (⟨x - d, L, .fwd⟩ : Part) (⟨0, y + d - L, .fwd⟩ : Part) = true := by
-            simp only [partsOverlap, Part.mem, Bool.or_eq_true, Bool.and_eq_true, decide_eq_true_eq]; omega
-          have o6 : partsOverlap (⟨0, L, .fwd⟩ : Part) (⟨0, L, .fwd⟩ : Part) = true := by
-            simp only [partsOverlap, Part.mem, Bool.or_eq_true, Bool.and_eq_true, decide_eq_true_eq]; omega
-          have e3 : min (x - d) 0 = 0 := by omega
-          have e4 : max L (y + d - L) = L := by omega
-          simp [extendLocation, areaTwo, Loc.strand, Loc.parts, setHead, setLast, pure, Except.pure, bind, Except.bind,
-            hA, hB, mergeEnds, hno, e1, e2, o5, o6, e3, e4]
-        · rw [if_neg hM]
-          have o5 : partsOverlap (⟨x - d, L, .fwd⟩ : Part) (⟨0, y + d - L, .fwd⟩ : Part) = false := by
-            simp only [partsOverlap, Part.mem, Bool.or_eq_false_iff, Bool.and_eq_false_iff, decide_eq_false_iff_not]; omega
-          simp [extendLocation, areaTwo, Loc.strand, Loc.parts, setHead, setLast, pure, Except.pure, bind, Except.bind,
-            hA, hB, mergeEnds, hno, e1, e2, o5]
-      · rw [if_neg hB]
-        have e2 : min (y + d) L = y + d := by omega
-        by_cases hM : x - d < y + d
-        · rw [if_pos hM]
-          have o5 : partsOverlap (⟨x - d, L, .fwd⟩ : Part) (⟨0, y + d, .fwd⟩ : Part) = true := by
-            simp only [partsOverlap, Part.mem, Bool.or_eq_true, Bool.and_eq_true, decide_eq_true_eq]; omega
-          have e3 : min (x - d) 0 = 0 := by omega
-          have e4 : max L (y + d) = L := by omega
-          simp [extendLocation, areaTwo, Loc.strand, Loc.parts, setHead, setLast, pure, Except.pure, bind, Except.bind,
-            hA, hB, mergeEnds, hno, e1, e2, o5, e3, e4]
-        · rw [if_neg hM]
-          have o5 : partsOverlap (⟨x - d, L, .fwd⟩ : Part) (⟨0, y + d, .fwd⟩ : Part) = false := by
-            simp only [partsOverlap, Part.mem, Bool.or_eq_false_iff, Bool.and_eq_false_iff, decide_eq_false_iff_not]; omega
-          simp [extendLocation, areaTwo, Loc.strand, Loc.parts, setHead, setLast, pure, Except.pure, bind, Except.bind,
-            hA, hB, mergeEnds, hno, e1, e2, o5]
+  have hb : bridgesOrigin (Loc.compound [⟨x, L, .fwd⟩, ⟨0, y, .fwd⟩]) = true := bridges_areaTwo_fwd x y L hy0 hyx
+  by_cases hG : x - y < 2 * d
+  · rw [if_pos hG]
+    have h0 : ¬ x < y := by omega
+    simp [extendLocation, hb, areaTwo, Loc.strand, Loc.parts, pure, Except.pure, h0, hG]
+  · rw [if_neg hG]
+    have hA : ¬ (x - d < 0) := by omega
+    have hB : ¬ (y + d > L) := by omega
+    have e1 : max 0 (x - d) = x - d := by omega
+    have e2 : min (y + d) L = y + d := by omega
+    have o5 : partsOverlap (⟨x - d, L, .fwd⟩ : Part) (⟨0, y + d, .fwd⟩ : Part) = false := by
+      simp only [partsOverlap, Part.mem, Bool.or_eq_false_iff, Bool.and_eq_false_iff, decide_eq_false_iff_not]; omega
+    simp [extendLocation, hb, areaTwo, Loc.strand, Loc.parts, setHead, setLast, pure, Except.pure, bind, Except.bind,
+      hG, hA, hB, mergeEnds, hno, e1, e2, o5]
 
 theorem mem_three (a b c : Part) (i : Int) :
     (Loc.compound [a, b, c]).mem i = true ↔ (a.lo ≤ i ∧ i < a.hi) ∨ (b.lo ≤ i ∧ i < b.hi) ∨ (c.lo ≤ i ∧ i < c.hi) := by
@@ -96,21 +45,9 @@ theorem mem_three (a b c : Part) (i : Int) :
 theorem extAreaRing_mem_gap (x y d L : Int) (hL : 0 < L) (hy0 : 0 < y) (hyx : y ≤ x) (hxL : x < L) (hd : 0 ≤ d) (i : Int) :
     (extAreaRing x y d L).mem i = true ↔ (0 ≤ i ∧ i < L ∧ ¬ (y + d ≤ i ∧ i < x - d)) := by
   unfold extAreaRing
-  by_cases hW : x - d < 0 ∧ x - d + L ≤ y + d
-  · rw [if_pos hW, mem_simple]; dsimp only; omega
-  · rw [if_neg hW]
-    by_cases hA : x - d < 0
-    · rw [if_pos hA, mem_three]; dsimp only; omega
-    · rw [if_neg hA]
-      by_cases hB : y + d > L
-      · rw [if_pos hB]
-        by_cases hM : x - d < y + d - L
-        · rw [if_pos hM, mem_simple]; dsimp only; omega
-        · rw [if_neg hM, mem_three]; dsimp only; omega
-      · rw [if_neg hB]
-        by_cases hM : x - d < y + d
-        · rw [if_pos hM, mem_simple]; dsimp only; omega
-        · rw [if_neg hM, mem_two]; dsimp only; omega
+  by_cases hG : x - y < 2 * d
+  · rw [if_pos hG, mem_simple]; dsimp only; omega
+  · rw [if_neg hG, mem_two]; dsimp only; omega
 
 /-- … which are exactly the bases within ring distance `d` of the span -/
 theorem extAreaRing_mem (x y d L : Int) (hL : 0 < L) (hy0 : 0 < y) (hyx : y ≤ x) (hxL : x < L) (hd : 0 ≤ d) (i : Int) :
@@ -132,26 +69,14 @@ theorem extAreaRing_mem (x y d L : Int) (hL : 0 < L) (hy0 : 0 < y) (hyx : y ≤ 
     refine ⟨hi0, hi1, ?_⟩
     grind
 
-/-- the closed form is a well-formed span unless the start is pushed below the origin, or the end
-    beyond the record end, without the two ends meeting -/
-theorem extAreaRing_wf (x y d L : Int) (hL : 0 < L) (hy0 : 0 < y) (hyx : y ≤ x) (hxL : x < L) (hd : 0 ≤ d)
-    (h : (d ≤ x ∧ y + d ≤ L) ∨ L + x - y < 2 * d) : areaWF L L (extAreaRing x y d L) = true := by
+/-- the closed form is always a well-formed span (after D59; before it three overlapping parts came out when an
+    end was pushed past the origin / the record end without the two ends meeting there) -/
+theorem extAreaRing_wf (x y d L : Int) (hL : 0 < L) (hy0 : 0 < y) (hyx : y ≤ x) (hxL : x < L) (hd : 0 ≤ d) :
+    areaWF L L (extAreaRing x y d L) = true := by
   have hL0 : L ≠ 0 := by omega
   unfold extAreaRing
-  by_cases hW : x - d < 0 ∧ x - d + L ≤ y + d
-  · rw [if_pos hW]; simp [areaWF, Loc.parts]; omega
-  · rw [if_neg hW]
-    by_cases hA : x - d < 0
-    · exfalso; omega
-    · rw [if_neg hA]
-      by_cases hB : y + d > L
-      · rw [if_pos hB]
-        by_cases hM : x - d < y + d - L
-        · rw [if_pos hM]; simp [areaWF, Loc.parts]; omega
-        · exfalso; omega
-      · rw [if_neg hB]
-        by_cases hM : x - d < y + d
-        · rw [if_pos hM]; simp [areaWF, Loc.parts]; omega
-        · rw [if_neg hM]; simp [areaWF, Loc.parts, hL0]; omega
+  by_cases hG : x - y < 2 * d
+  · rw [if_pos hG]; simp [areaWF, Loc.parts]; omega
+  · rw [if_neg hG]; simp [areaWF, Loc.parts, hL0]; omega
 
 end ASV
